@@ -218,7 +218,7 @@ def verify_function(c, registry, timeout_ms=10000, max_paths=None):
                 if allowed is None:
                     ctx.oblige("no-raise:%s:%s" % (cls.__name__, e.where), False, "exception escapes")
                 elif allowed[1] is not None:
-                    ctx.oblige("raises-only-if:%s" % allowed[0].__name__, c.apply(allowed[1], dict(old.__dict__, old=old)))
+                    ctx.oblige("raises-only-if:%s" % allowed[0].__name__, c.apply(allowed[1], dict(old.__dict__, old=old, trace=I.trace, **ghosts)))
                 else:
                     ctx.results.append(dict(name="raises-allowed:%s" % allowed[0].__name__, status="unsat", backend="trivial", seconds=0.0))
         except PathEnd:
@@ -527,7 +527,7 @@ def concrete_check(c, conc):
             bad.append(("no-raise:%s" % type(o.exc).__name__, "%s: %s" % (type(o.exc).__name__, o.exc)))
         elif allowed[1] is not None:
             try:
-                if not _truth(c.apply(allowed[1], dict(o.old.__dict__, old=o.old))):
+                if not _truth(c.apply(allowed[1], dict(o.old.__dict__, old=o.old, **{k: v for k, v in conc.items() if k in c.ghosts}))):
                     bad.append(("raises-only-if:%s" % allowed[0].__name__, str(o.exc)))
             except Exception as e:
                 bad.append(("raises-only-if:%s" % allowed[0].__name__, "clause not evaluable: %s" % e))
